@@ -275,14 +275,39 @@ fn mode_collapse(r: &mut StdRng, scn: usize, n_req: usize, out: &mut Vec<Value>)
   for _ in 0..n_req {
     let q = plain_query(r);
     let filt = if chance(r, 1, 5) { Some(gen_filter(r, 1, false, "")) } else { None };
-    let sort = gen_sort(r);
-    let inner = if chance(r, 1, 5) {
+    let mut sort = gen_sort(r);
+    // every fifth request: one coarse request key (many ties inside a group) and an inner sort that
+    // extends it by a second key, window of one or two members
+    let directed = chance(r, 1, 5);
+    if directed {
+      let (f, k) = *pick(r, &[("year", "i64"), ("rank", "i64"), ("cat", "kw")]);
+      sort = vec![SortSpecA { field: f.to_string(), kind: k, desc: Some(chance(r, 1, 2)) }];
+    }
+    let inner = if directed {
+      let (f, k) = *pick(r, &[("price", "f64"), ("ver", "i64")]);
+      let mut isort = sort.clone();
+      isort.push(SortSpecA { field: f.to_string(), kind: k, desc: Some(chance(r, 1, 2)) });
+      Some(InnerA { sort: isort, from: Some(r.gen_range(0..=1)), size: Some(r.gen_range(1..=2)) })
+    } else if chance(r, 1, 5) {
       None
     } else {
       // README: inner hits are "sorted independently if you supply sort"; what applies without an
       // inner sort is only unambiguous when the request sort is the default, and an inner sort
       // on _score is only meaningful when the request computes scores.
       let mut isort = if sort.is_empty() && chance(r, 1, 2) { vec![] } else { gen_sort(r) };
+      // related plans: the request sort extended by one key (members tie on the request keys,
+      // the inner sort decides), or the request sort without its last key
+      if !sort.is_empty() && chance(r, 1, 3) {
+        isort = sort.to_vec();
+        if chance(r, 2, 3) {
+          let (f, k) = *pick(r, &[("year", "i64"), ("rank", "i64"), ("price", "f64"), ("cat", "kw")]);
+          if !isort.iter().any(|x| x.field == f) {
+            isort.push(SortSpecA { field: f.to_string(), kind: k, desc: Some(chance(r, 1, 2)) });
+          }
+        } else if isort.len() > 1 {
+          isort.pop();
+        }
+      }
       if !uses_score(&sort) {
         isort.retain(|x| x.kind != "score");
       }
@@ -495,7 +520,8 @@ const H_ASCII: [&str; 8] = ["rust", "go", "fast", "search", "Zig", "RUST", "lang
 const H_LATIN: [&str; 7] = ["café", "über", "naïve", "Ñandú", "élan", "Ärger", "señor"];
 const H_CJK: [&str; 6] = ["漢字", "日本語", "検索", "東京", "語", "ひらがな"];
 const H_EMOJI: [&str; 4] = ["😀", "🎉", "🚀", "😀😀"];
-const H_SEPS: [&str; 9] = [" ", " ", ", ", " — ", "。", " · ", "… ", "¡", "、"];
+// separators incl. multi-byte white space (no-break space, ideographic space, line separator, thin space)
+const H_SEPS: [&str; 13] = [" ", " ", ", ", " — ", "。", " · ", "… ", "¡", "、", "\u{a0}", "\u{3000}", "\u{2028}", "\u{2009}"];
 
 fn unicode_text(r: &mut StdRng, n_words: usize) -> String {
   let mut out = String::new();
